@@ -3,6 +3,7 @@
   tied to the calendar specification through the C08 theorems.
 -/
 import Echse.Lemmas.Tz2
+import Echse.Lemmas.Tz6
 import Echse.Props.C08
 namespace Echse.Tz
 open Echse.Instant Echse.Spec.Cal
@@ -69,25 +70,46 @@ theorem instantLoc_gen (z : Zone) (wf : WF z) (c : ZRng) (hc : CacheOK z c) (i :
       = off z (ep i) * 1000 := by unfold ep; omega
   rw [this]
 
-/-- `instantUtc`, with the facts about `instToEpoch` as explicit hypotheses -/
-theorem instantUtc_gen (z : Zone) (wf : WF z) (c : ZRng) (hc : CacheOK z c) (i : Inst)
+/-- `instantLoc` through a cache that holds a reported range leaves such a cache -/
+theorem instantLoc_rng (z : Zone) (wf : WF z) (c : ZRng) (hc : CacheRng z c) (i : Inst)
+    (h : NormalSec i) (hr : InRange i) (hI : I32 (ep i))
+    (hlo : days 1901 1 1 * 86400 ≤ absSec i + off z (ep i))
+    (hhi : absSec i + off z (ep i) < days 2100 1 1 * 86400) :
+    ∃ j c', instantLoc z c i = some (j, c') ∧ CacheRng z c' ∧ NormalSec j ∧ InRange j ∧
+      absSec j = absSec i + off z (ep i) := by
+  have e1 := localTime_rng z wf c hc (ep i) hI
+  obtain ⟨n, r, a⟩ := C08.add_spec_sec i (off z (ep i)) h hr hlo hhi
+  refine ⟨_, _, ?_, cacheRng_rngAt z (ep i) hI, n, r, a⟩
+  unfold instantLoc
+  rw [not_allDay i h.2.1]
+  simp only [Bool.false_eq_true, if_false]
+  unfold ep at e1
+  rw [e1]
+  simp only []
+  have : 1000 * ((instToEpoch i : Int) + off z (instToEpoch i : Int) - (instToEpoch i : Int))
+      = off z (ep i) * 1000 := by unfold ep; omega
+  rw [this]; rfl
+
+/-- `instantUtc`, with the facts about `instToEpoch` as explicit hypotheses: the instant moves by
+`utcVal z w − w`, `w` its epoch time; the cache is left on the stretch of the first guess -/
+theorem instantUtc_gen (z : Zone) (wf : WF z) (c : ZRng) (hc : CacheRng z c) (i : Inst)
     (h : NormalSec i) (hr : InRange i) (hI : I32 (ep i)) (hI' : I32 (ep i - off z (ep i)))
-    (hlo : days 1901 1 1 * 86400 ≤ absSec i + -off z (ep i - off z (ep i)))
-    (hhi : absSec i + -off z (ep i - off z (ep i)) < days 2100 1 1 * 86400) :
-    ∃ j c', instantUtc z c i = some (j, c') ∧ CacheOK z c' ∧ NormalSec j ∧ InRange j ∧
-      absSec j = absSec i - off z (ep i - off z (ep i)) := by
-  obtain ⟨c1, e1, h1⟩ := utcTime_eq z wf c hc (ep i) hI hI'
-  obtain ⟨n, r, a⟩ := C08.add_spec_sec i (-off z (ep i - off z (ep i))) h hr hlo hhi
-  refine ⟨_, c1, ?_, h1, n, r, by rw [a]; omega⟩
+    (hlo : days 1901 1 1 * 86400 ≤ absSec i + (utcVal z (ep i) - ep i))
+    (hhi : absSec i + (utcVal z (ep i) - ep i) < days 2100 1 1 * 86400) :
+    ∃ j c', instantUtc z c i = some (j, c') ∧ CacheRng z c' ∧ NormalSec j ∧ InRange j ∧
+      absSec j = absSec i - (ep i - utcVal z (ep i)) := by
+  have e1 := utcTime_eq' z wf c hc (ep i) hI hI'
+  obtain ⟨n, r, a⟩ := C08.add_spec_sec i (utcVal z (ep i) - ep i) h hr hlo hhi
+  refine ⟨_, _, ?_, cacheRng_rngAt z _ hI', n, r, by rw [a]; omega⟩
   unfold instantUtc
   rw [not_allDay i h.2.1]
   simp only [Bool.false_eq_true, if_false]
   unfold ep at e1
   rw [e1]
   simp only []
-  have : 1000 * ((instToEpoch i : Int) - off z ((instToEpoch i : Int) - off z (instToEpoch i : Int)) - (instToEpoch i : Int))
-      = -off z (ep i - off z (ep i)) * 1000 := by unfold ep; omega
-  rw [this]
+  have : 1000 * (utcVal z (instToEpoch i : Int) - (instToEpoch i : Int))
+      = (utcVal z (ep i) - ep i) * 1000 := by unfold ep; omega
+  rw [this]; rfl
 
 theorem tzobOffs_gen (z : Zone) (wf : WF z) (i : Inst) (hH : i.H < 24) (hI : I32 (ep i)) :
     tzobOffs z i = some (off z (ep i)) := by
